@@ -55,12 +55,14 @@ Theorem C13_parameters_are_drawn_in_get_params_partial :
 Proof. exact draws_inside_partial. Qed.
 Print Assumptions C13_parameters_are_drawn_in_get_params_partial.
 
-(* the record: documented keys only (no probability), every key holds the attribute of its own name, and the
-   annotation parameters the replay is rebuilt from persist each constructor argument under its own name *)
+(* the record: documented keys only (no probability), every key holds the attribute of its own name, the annotation
+   parameters the replay is rebuilt from persist each constructor argument under its own name, and the record of a
+   Compose carries every constructor argument of Compose except the children and the probability *)
 Theorem C13_record_holds_each_setting_under_its_own_name :
   forallb record_row_ok record_table = true /\
   forallb todict_row_ok (filter is_params_row todict_table) = true /\
-  Nat.eqb (List.length (filter is_params_row todict_table)) 3 = true /\ Nat.eqb (List.length record_table) 2 = true.
+  Nat.eqb (List.length (filter is_params_row todict_table)) 3 = true /\ Nat.eqb (List.length record_table) 2 = true /\
+  compose_record_complete = true.
 Proof. exact record_ok. Qed.
 Print Assumptions C13_record_holds_each_setting_under_its_own_name.
 
